@@ -263,6 +263,30 @@ def rej3(chk, fx):
     chk.incomplete("nterm constructor not found")
 
 
+def _options_local_no_skip(fn, arg, call):
+    """The options argument is a local parse_options object on which set_skip_whitespace(false) was called (as a
+    statement or in its initialiser) before the call, and nothing was called on it afterwards that could switch it back."""
+    a = strip(arg, casts=True)
+    if a is None or a.get("k") != "DeclRefExpr" or a["d"]["k"] != "Var":
+        return False
+    vid = a["d"]["id"]
+    state = None
+    for n in walk(fn.body):
+        if n is call:
+            break
+        if n.get("k") == "Var" and n["id"] == vid and n.get("init") is not None:
+            txt = Canon(fn).c(n["init"])
+            state = False if ".set_skip_whitespace(false)" in txt else None
+            if state is None and "set_skip_whitespace" not in txt:
+                state = True            # default options skip white space
+        if n.get("k") == "CXXMemberCallExpr" and (n.get("callee") or {}).get("n") == "set_skip_whitespace":
+            obj = A.call_object(n)
+            if A.declref_id(strip(obj, casts=True)) == vid:
+                v = AI.const_of(A.call_args(n)[0]) if A.call_args(n) else None
+                state = None if v is None else bool(v)
+    return state is False
+
+
 def rej4(chk, fx):
     chk.rule("REJ-4", "uses of the pattern parser", 5)
     n = 0
@@ -280,7 +304,7 @@ def rej4(chk, fx):
                 key = (fn.o["q"], m.get("l"))
                 opts = cn.c(A.call_args(m)[1])
                 n += 1
-                if ".set_skip_whitespace(false)" in opts:
+                if ".set_skip_whitespace(false)" in opts or _options_local_no_skip(fn, A.call_args(m)[1], m):
                     chk.ok("REJ-4", A.site(fn, m), "pattern parsed with set_skip_whitespace(false)") if n <= 8 else None
                 else:
                     chk.violation("REJ-4", A.site(fn, m), "REJ-4:%s:whitespace" % fn.o["n"],
